@@ -443,7 +443,12 @@ class FieldValueComponentTimeDelta(FieldValueComponentKeyValueBase):
         if isinstance(value, datetime.timedelta):
             return cls(value)
 
-        return cls(datetime.timedelta(seconds=value))
+        try:
+            time_delta = datetime.timedelta(seconds=value)
+        except (TypeError, ValueError, OverflowError) as e:
+            six.raise_from(InvalidValue(value, cls, 'value'), e)
+
+        return cls(time_delta)
 
     @classmethod
     def _parse_value(cls, parser):
